@@ -158,6 +158,7 @@ func (self *RemoteJobManager) execJob(shellCmd string, argv []string,
 		}
 		// if we want to try to put a more precise cap on cluster execution load,
 		// might be preferable to request num threads here instead of a slot per job
+		util.VerifPoint("remote:wait", fqname)
 		if success := jobSem.Acquire(metadata, false); !success {
 			if self.debug {
 				util.LogInfo("jobmngr",
@@ -169,6 +170,7 @@ func (self *RemoteJobManager) execJob(shellCmd string, argv []string,
 		if self.debug {
 			util.LogInfo("jobmngr", "Job sent: %s", fqname)
 		}
+		util.VerifPoint("remote:send", fqname)
 		self.sendJob(shellCmd, argv, envs,
 			metadata, resRequest,
 			fqname, shellName, ctx)
